@@ -156,6 +156,12 @@ func IsPointerLike(T types.Type) bool {
 			if err != nil {
 				return false
 			}
+			if len(terms) == 0 {
+				// No type terms: the interface only restricts its type set
+				// by methods or comparable, so the type set includes
+				// pointer-like types (pointers, channels, interfaces, ...).
+				return true
+			}
 			for _, term := range terms {
 				if IsPointerLike(term.Type()) {
 					return true
